@@ -148,8 +148,9 @@ VERUS_UNITS = {
     },
     'react_commands': {
         'template': 'react_commands.rs.tpl',
-        'owners': [(r'ReactCommands::insert$', ['C14', 'C18', 'C01']), (r'ReactCommands::(broadcast|entity_event|trigger_resource_mutation)$', ['C01', 'C14']), (r'ReactCommands::revoke$', ['C06'])],
+        'owners': [(r'ReactCommands::insert$', ['C14', 'C18', 'C01']), (r'ReactCommands::(broadcast|entity_event|trigger_resource_mutation)$', ['C01', 'C14']), (r'ReactCommands::revoke$', ['C06']), (r'ReactCommands::(on|on_persistent|on_revokable|with)$', ['C07', 'C01', 'C06'])],
         'negctl': [
+            ('.push(reg_call(triggers, sc, ReactorMode::Persistent)) }),', '.push(reg_call(triggers, sc, ReactorMode::Cleanup)) }),', 'ReactCommands::on_persistent'),
             ('!old(self).commands.alive().contains(entity) ==> final(self).commands.log() == old(self).commands.log(),', '!old(self).commands.alive().contains(entity) ==> final(self).commands.log().len() == old(self).commands.log().len() + 1,', 'ReactCommands::insert'),
         ],
     },
@@ -314,7 +315,7 @@ PROPS = {
         note=ENVNOTE + '; the assumed effects of the callees in unit `revoke` are uninterpreted functions - their meaning is fixed by the Kani contracts, the correspondence is by review',
         explanation='token walk and the five type-wide revoke_* proved unbounded (Verus); per-entity removal and a compiled-code restatement bounded (Kani); history lemma L3'),
     'C07': dict(category='other', design_ref='DESIGN.md 5/C07 + 9.5',
-        text='Handle-balance contracts on the real code: ReactorMode::prepare gives a persistent reactor a plain handle (never ref-counted, hence never collected) and every other mode a signal for exactly the reactor\'s entity (Verus, verbatim); each of the 11 trigger types registers exactly ONE clone of the handle per trigger into the table its reactor_type() names, none for a despawn trigger on a dead entity, and register_entity_reactor stores none when the entity is gone (Verus, verbatim, generic); register_* store exactly the handle they are given (Verus, unbounded); revoke_* drop exactly one entry of the revoked reactor and no neighbour (Verus, any length; Kani restatement L<=4), EntityReactors::remove exactly the (type, id) matches (Kani, L<=4); register_reactors turns the mode into ONE handle and registers the whole bundle with it (Verus); the register_despawn_reactor system (closure body verbatim, lifted by extraction rule 16) stores the handle iff the target is still alive when the command is applied, never replaces an existing DespawnTracker (which would report a despawn that did not happen) and wires a new tracker to this cache\'s despawn channel (Verus); schedule_despawn_reactions moves every handle of a despawned entity\'s list INTO its Despawn command and removes the list (Verus, verbatim, unbounded), DespawnAccessTracker holds the in-flight handle from start to end and end drops it (Verus) - so the reactor outlives its pending despawn reaction and not longer; the signal itself is an exact reference count: the reactor\'s id is sent to the despawner exactly once, at the drop of the last clone (Kani on real std::sync::Arc + the assumed channel, 1..3 clones; lemma L4). One collection (Verus, garbage_collect_entities verbatim modulo extraction rule 15; unit gc): the request channel is EMPTY on return - the collector never stops early - and every entity whose request was pending on entry is gone on return, so a reactor whose last handle has disappeared is despawned by the first collection that follows; requests for entities that are already gone are skipped. Level other: WHEN the runner collects / polls is NOT discharged (whole-tree histories); that despawning the entity drops its system state and captures is Bevy\'s component drop (assumed).',
+        text='Handle-balance contracts on the real code: the entry points fix the mode - ReactCommands::on spawns ONE system command and registers the whole bundle for it once under Cleanup, on_persistent under Persistent (returning the id), on_revokable under Revokable (returning the token of exactly that reactor and bundle); `with` returns a token only for Revokable (Verus, verbatim, generic); ReactorMode::prepare gives a persistent reactor a plain handle (never ref-counted, hence never collected) and every other mode a signal for exactly the reactor\'s entity (Verus, verbatim); each of the 11 trigger types registers exactly ONE clone of the handle per trigger into the table its reactor_type() names, none for a despawn trigger on a dead entity, and register_entity_reactor stores none when the entity is gone (Verus, verbatim, generic); register_* store exactly the handle they are given (Verus, unbounded); revoke_* drop exactly one entry of the revoked reactor and no neighbour (Verus, any length; Kani restatement L<=4), EntityReactors::remove exactly the (type, id) matches (Kani, L<=4); register_reactors turns the mode into ONE handle and registers the whole bundle with it (Verus); the register_despawn_reactor system (closure body verbatim, lifted by extraction rule 16) stores the handle iff the target is still alive when the command is applied, never replaces an existing DespawnTracker (which would report a despawn that did not happen) and wires a new tracker to this cache\'s despawn channel (Verus); schedule_despawn_reactions moves every handle of a despawned entity\'s list INTO its Despawn command and removes the list (Verus, verbatim, unbounded), DespawnAccessTracker holds the in-flight handle from start to end and end drops it (Verus) - so the reactor outlives its pending despawn reaction and not longer; the signal itself is an exact reference count: the reactor\'s id is sent to the despawner exactly once, at the drop of the last clone (Kani on real std::sync::Arc + the assumed channel, 1..3 clones; lemma L4). One collection (Verus, garbage_collect_entities verbatim modulo extraction rule 15; unit gc): the request channel is EMPTY on return - the collector never stops early - and every entity whose request was pending on entry is gone on return, so a reactor whose last handle has disappeared is despawned by the first collection that follows; requests for entities that are already gone are skipped. Level other: WHEN the runner collects / polls is NOT discharged (whole-tree histories); that despawning the entity drops its system state and captures is Bevy\'s component drop (assumed).',
         note=ENVNOTE + '; Arc/channel: sequential semantics; in unit gc the channel receiver and World::resource are given exclusive (&mut) access in place of crossbeam\'s interior mutability',
         explanation='one clone per effective registration, one drop per revocation, in-flight handle dropped at end, exact ref-count of the signal (Kani, bounded), one collection drains every pending request (Verus, unbounded); collection points in the runner not covered'),
     'C08': dict(category='other', design_ref='DESIGN.md 9.5',
